@@ -13,11 +13,13 @@ pub fn abort_poll() -> bool {
     let me = current_task();
     with_sim(|s| {
         s.polls += 1;
+        s.polls_in_region += 1;
         if !s.flipped {
             let flip = match s.cfg.abort {
                 AbortPlan::Never => false,
                 AbortPlan::AtPoll(k) => s.polls >= k,
                 AbortPlan::AtTime(t) => s.clock >= t,
+                AbortPlan::AtRegion(r, p) => s.regions == r && s.polls_in_region >= p,
             };
             if flip {
                 s.flipped = true;
@@ -134,4 +136,14 @@ pub fn observe(tag: &'static str, obj: &dyn Any) {
 
 pub fn has_observer() -> bool {
     OBSERVER.with(|c| c.borrow().is_some())
+}
+
+/// A parallel region (pool.install / par_iter / join) begins: called by the rayon facade.
+pub fn region_begin() {
+    if in_sim() {
+        with_sim(|s| {
+            s.regions += 1;
+            s.polls_in_region = 0;
+        });
+    }
 }
